@@ -100,6 +100,18 @@ def main():
                 for d in res[s][p][1][:4]:
                     print('      ', p, d)
     print(f'{caught}/{len(seeds)} seeded changes reported')
+    if a.all and not a.ids:
+        out = {}
+        for s_ in seeds:
+            out[s_] = {
+                'fired': sorted(p for p, (c, _d) in res[s_].items()
+                                if c == 1),
+                'rules': sorted({d.split(' ')[0] for p, (c, dl) in
+                                 res[s_].items() if c == 1 for d in dl}),
+            }
+        json.dump(out, open(VERIF / 'seeded' / 'MATRIX.json', 'w'),
+                  indent=1, sort_keys=True)
+        print('matrix written to seeded/MATRIX.json')
 
 
 if __name__ == '__main__':
